@@ -185,10 +185,12 @@ class PopenExecutor(concurrent.futures.Executor):
 
         Raises ShutdownError if the executor has been shutdown."""
 
-        if self._shutdown.is_set():
-            raise ShutdownError()
-
         with self._lock:
+            # test the flag under the lock: shutdown() sets it before taking the lock to cancel
+            # the registered futures, so a job is either refused or registered before that
+            if self._shutdown.is_set():
+                raise ShutdownError()
+
             self._futures.append(future)
             future.start()
             return future
@@ -223,8 +225,11 @@ class PopenExecutor(concurrent.futures.Executor):
 
         # submitting new futures after join() would be bad,
         # so we make this internal and only call it from shutdown()
+        with self._lock:
+            futures = list(self._futures)
+
         with contextlib.suppress(concurrent.futures.CancelledError):
-            for future in list(self._futures):
+            for future in futures:
                 future.result()
 
 
